@@ -42,6 +42,11 @@ def run(P, rep, tier):
     rep.attempt(r1_value_guard, P, rep, ctx)
     rep.attempt(r2_bytes_untransformed, P, rep, ctx)
     rep.attempt(r3_harvested_facts, P, rep, ctx)
+    # the reserved value is exactly the one value the reader treats as deletion marker (writer guard == reader
+    # predicate, dataset values read with [()]): rule ids C01.R4
+    from . import c01
+
+    rep.attempt(c01.r4_markers, P, rep, ctx)
     rep.floor("C17.R1", 4)
     rep.floor("C17.R2", 5)
     rep.floor("C17.R3", 7)
